@@ -170,6 +170,8 @@ class C17(Prop):
         if (dyn or pyfunc or extra_scripts) and src.n(2):
             proj = 'raise-value'
         delta = 25 + src.n(6) * src.n(6) * 16 + src.n(40)
+        if src.n(12) == 7:
+            delta = src.pick([0, 1, 2, 3, 5, 8, 13])        # hardly any room above the caller (0: the frame of evaluate_bounded itself does not fit)
         if proj == 'engine-value' and src.n(3):
             # an answer built by a chain of n bindings (outer first, inner later), limits around the depth that the search
             # and the dereferencing of the answer need
@@ -198,7 +200,7 @@ class C17(Prop):
             yield dict(case, proj='value')
         d = case['limit_delta']
         for d2 in (d // 2, d - 10, d - 1):
-            if d2 >= 25 and d2 != d:
+            if d2 >= 0 and d2 != d:
                 yield dict(case, limit_delta=d2)
 
     # ------------------------------------------------------------------
@@ -429,7 +431,10 @@ class C17(Prop):
                 # "the search stays within the depth limit" is decided by a plain loop over the same generator under a
                 # limit that is MARGIN frames lower (how many frames evaluate_bounded itself uses is not specified): if
                 # even that completes, the bounded call must return every answer
-                p = self.run_once(code, q, max(20, delta - MARGIN), kind, k, case['proj_depth'], 'plain', dyn, 'high', pyfunc, extra_scripts)
+                if delta - MARGIN >= 5:
+                    p = self.run_once(code, q, delta - MARGIN, kind, k, case['proj_depth'], 'plain', dyn, 'high', pyfunc, extra_scripts)
+                else:
+                    p = {'completed': False, 'result': None}        # no room for the comparison run: only the prefix relation is claimed
                 if p['completed'] is True:
                     if res != p['result']:
                         return FAIL('search-fits-within-the-limit-but-answers-differ-from-plain-loop', dict(detail, result=len(res), plain=len(p['result']), margin_frames=MARGIN))
